@@ -210,7 +210,7 @@ func chainList(fn *ssa.Function) (startSelf, startChild, ok bool) {
 			step := false
 			for _, e := range phi.Edges {
 				if ld, isLd := e.(*ssa.UnOp); isLd && ld.Op == token.MUL {
-					if fa, isFA := ld.X.(*ssa.FieldAddr); isFA && fa.X == ssa.Value(phi) && fieldOf(fa) != nil && fieldOf(fa).Name() == "child" {
+					if fa, isFA := ld.X.(*ssa.FieldAddr); isFA && fa.X == ssa.Value(phi) && fieldOf(fa) != nil && roleOf(fieldOf(fa)) == "child" {
 						step = true
 					}
 				}
@@ -226,7 +226,7 @@ func chainList(fn *ssa.Function) (startSelf, startChild, ok bool) {
 	for _, e := range walk.Edges {
 		if e == ssa.Value(fn.Params[0]) {
 			startSelf = true
-		} else if f := recvFieldLoad(fn, e); f != nil && f.Name() == "child" {
+		} else if f := recvFieldLoad(fn, e); f != nil && roleOf(f) == "child" {
 			startChild = true
 		}
 	}
@@ -386,7 +386,7 @@ func tdWrite(c *Ctx, rule, path, short string) {
 		if ctxFn == fn && (ia.X == outer.seq) {
 			base = fn.Params[0]
 		} else if fl, ok := ia.X.(*ssa.UnOp); ok && fl.Op == token.MUL {
-			if fa, ok := fl.X.(*ssa.FieldAddr); ok && fieldOf(fa) != nil && fieldOf(fa).Name() == "fields" {
+			if fa, ok := fl.X.(*ssa.FieldAddr); ok && fieldOf(fa) != nil && roleOf(fieldOf(fa)) == "fields" {
 				base = fa.X
 			}
 		}
@@ -469,10 +469,10 @@ func tdWrite(c *Ctx, rule, path, short string) {
 		for _, e := range chain.Edges {
 			if e == ssa.Value(ctxFn.Params[0]) {
 				startSelf = true
-			} else if f := recvFieldLoad(ctxFn, e); f != nil && f.Name() == "child" {
+			} else if f := recvFieldLoad(ctxFn, e); f != nil && roleOf(f) == "child" {
 				startChild = true
 			} else if ld, isLd := e.(*ssa.UnOp); isLd && ld.Op == token.MUL {
-				if fa, isFA := ld.X.(*ssa.FieldAddr); isFA && fa.X == ssa.Value(chain) && fieldOf(fa) != nil && fieldOf(fa).Name() == "child" {
+				if fa, isFA := ld.X.(*ssa.FieldAddr); isFA && fa.X == ssa.Value(chain) && fieldOf(fa) != nil && roleOf(fieldOf(fa)) == "child" {
 					stepOK = true
 				}
 			}
@@ -737,7 +737,7 @@ func tdAdd(c *Ctx, rule, path, short string) {
 				continue
 			}
 			f := fieldOf(st.Addr)
-			if f == nil || f.Name() != "len" {
+			if f == nil || roleOf(f) != "len" {
 				continue
 			}
 			bo, ok := st.Val.(*ssa.BinOp)
@@ -773,9 +773,9 @@ func tdAdd(c *Ctx, rule, path, short string) {
 			continue
 		}
 		op := bo.Op
-		if fx.Name() == "max" && fy.Name() == "len" {
+		if roleOf(fx) == "max" && roleOf(fy) == "len" {
 			op = map[token.Token]token.Token{token.LSS: token.GTR, token.GTR: token.LSS, token.LEQ: token.GEQ, token.GEQ: token.LEQ, token.EQL: token.EQL, token.NEQ: token.NEQ}[op]
-		} else if !(fx.Name() == "len" && fy.Name() == "max") {
+		} else if !(roleOf(fx) == "len" && roleOf(fy) == "max") {
 			continue
 		}
 		for si, truth := range []bool{true, false} {
@@ -1146,7 +1146,7 @@ func tdRowGroup(c *Ctx, rule, path, short string) {
 		return lk
 	}
 	if lk := lookupOf(rd.Call.Value); lk != nil {
-		if f := t.selfField(lk.X); f != nil && f.Name() == "fields" {
+		if f := t.selfField(lk.X); f != nil && roleOf(f) == "fields" {
 			nameKey = keySym(lk.Index)
 		}
 	}
@@ -1215,7 +1215,7 @@ func tdRowGroup(c *Ctx, rule, path, short string) {
 		for _, b := range f.Blocks {
 			for _, ins := range b.Instrs {
 				if ia, ok := ins.(*ssa.IndexAddr); ok {
-					if fl := t.selfField(ia.X); fl != nil && fl.Name() == "rowGroups" {
+					if fl := t.selfField(ia.X); fl != nil && roleOf(fl) == "rowGroups" {
 						rgField = fl
 						if !constIs(ia.Index, 0) {
 							bad = append(bad, "the row group read is entry "+symExpr(ia.Index, 0)+", want the first of the remaining ones")
